@@ -140,66 +140,103 @@ func runC07(c *Ctx) {
 		c.indexAtomic()
 	})
 
-	c.rule("C07.V2", "RollbackBlockHeaders removes the index entry of every rolled-back header: the slice handed to truncateIndices holds one distinct hash per removed header (a fresh cell per iteration, filled with that header's BlockHash()), and no module function stores the address of one loop-invariant variable into the elements of a slice inside a loop", func() {
-		fn := c.fn(fnBRoll)
-		ti := find(fn, callTo(c.hfs("headerIndex", "truncateIndices")))
-		bh := c.method(pWire, "BlockHeader", "BlockHash")
-		okv := len(ti) == 1
-		var elemStores []ssa.Instruction
-		ir.Instrs(fn, func(in ssa.Instruction) {
-			st, ok := in.(*ssa.Store)
-			if !ok {
-				return
-			}
-			if _, isIdx := st.Addr.(*ssa.IndexAddr); !isIdx {
-				return
-			}
-			if al, isAl := st.Val.(*ssa.Alloc); isAl {
-				elemStores = append(elemStores, in)
-				h := ir.LoopHeaderOf(in.Block())
-				// fresh per iteration: allocated inside the same loop
-				if h == nil || ir.LoopHeaderOf(al.Block()) != h {
-					okv = false
-				}
-				// filled with the BlockHash of a header
-				filled := false
-				for _, s2 := range ir.StoresTo(al) {
-					if valIsCallTo(bh)(s2.Val) {
-						filled = true
+	c.rule("C07.V2", rolledBackEntriesRemovedDoc, func() { c.rolledBackEntriesRemoved() })
+
+	c.rule("C07.V3", "rolled-back entries are no longer found, wherever they were stored: when index entries are deleted each hash is routed to its sub-bucket only on the edge where the root bucket (the old place) was asked for that very hash and did not hold a 4-byte height for it; an entry written in the old format is otherwise left behind and its hash keeps resolving after the rollback", func() {
+		hosts, _ := c.hostsOf("headerfs.deleteHeaderEntries")
+		// (when folded: the transaction closure of the host)
+		var fn *ssa.Function
+		var visit func(f *ssa.Function)
+		visit = func(f *ssa.Function) {
+			ir.Instrs(f, func(in ssa.Instruction) {
+				if fn == nil && isBuiltin("len")(in) {
+					if g, ok := ir.Strip(ir.CallOf(in).Args[0]).(*ssa.Call); ok && callTo(c.method("github.com/btcsuite/btcwallet/walletdb", "ReadBucket", "Get"))(g) {
+						fn = f
 					}
 				}
-				if !filled {
-					okv = false
+			})
+			for _, a := range f.AnonFuncs {
+				visit(a)
+			}
+		}
+		for _, h := range hosts {
+			visit(h)
+		}
+		if fn == nil {
+			panic(anchorErr{"the root-bucket probe of headerfs.deleteHeaderEntries (or of the function it was folded into)"})
+		}
+		c.R.Funcs[c.nm(fn)] = true
+		get := c.method("github.com/btcsuite/btcwallet/walletdb", "ReadBucket", "Get")
+		del := c.method("github.com/btcsuite/btcwallet/walletdb", "ReadWriteBucket", "Delete")
+		nested := c.method("github.com/btcsuite/btcwallet/walletdb", "ReadWriteBucket", "NestedReadWriteBucket")
+		isHashSlice := func(t types.Type) bool {
+			sl, ok := t.Underlying().(*types.Slice)
+			if !ok {
+				return false
+			}
+			p, ok := sl.Elem().(*types.Pointer)
+			return ok && namedTypeIs(p.Elem(), "github.com/btcsuite/btcd/chainhash/v2", "Hash")
+		}
+		// the probes: len(bucket.Get(k)) compared with 4, bucket not a nested one
+		probes := find(fn, binops(eqOps, func(v ssa.Value) bool {
+			call, ok := ir.Strip(v).(*ssa.Call)
+			if !ok || !isBuiltin("len")(call) {
+				return false
+			}
+			g, ok := ir.Strip(call.Call.Args[0]).(*ssa.Call)
+			if !ok || !callTo(get)(g) {
+				return false
+			}
+			recv, _ := recvAndArgs(g)
+			return !ir.DerivesFrom(recv, valIsCallTo(nested))
+		}, constIntIs(4)))
+		// only a probe made with the hash of the current iteration says
+		// anything about the entry being routed
+		var own []ssa.Instruction
+		for _, p := range probes {
+			b := p.(*ssa.BinOp)
+			lenCall, _ := ir.Strip(b.X).(*ssa.Call)
+			if lenCall == nil {
+				lenCall, _ = ir.Strip(b.Y).(*ssa.Call)
+			}
+			getCall := ir.Strip(lenCall.Call.Args[0]).(*ssa.Call)
+			_, a := recvAndArgs(getCall)
+			h := ir.LoopHeaderOf(p.Block())
+			if h == nil || len(a) != 1 {
+				continue
+			}
+			lf := loopFormOf(h)
+			if ir.InfluencedBy(a[0], func(x ssa.Value) bool {
+				ia, ok := x.(*ssa.IndexAddr)
+				if !ok || !isHashSlice(ia.X.Type()) || ir.LoopHeaderOf(ia.Block()) != h {
+					return false
+				}
+				off, isCounter := counterOffset(lf, ia.Index)
+				return isCounter && off == 0
+			}) {
+				own = append(own, p)
+			}
+		}
+		g := equalIs("len(rootBucket.Get(this hash)) vs 4", own, false)
+		// the routing: the hash joins a per-sub-bucket group, or (written out)
+		// is deleted from a nested bucket in the same loop
+		var effects []ssa.Instruction
+		ir.Instrs(fn, func(in ssa.Instruction) {
+			if mu, ok := in.(*ssa.MapUpdate); ok {
+				if m, ok := mu.Map.Type().Underlying().(*types.Map); ok && isHashSlice(m.Elem()) {
+					effects = append(effects, in)
 				}
 			}
 		})
-		c.verdict(okv && len(elemStores) == 1, c.nm(fn)+" | one fresh hash cell per removed header", c.P.Pos(fn.Pos()), "per-iteration cell holding header.BlockHash()", "the hashes handed to truncateIndices are not one distinct cell per removed header (all elements alias one variable, or are not the headers' hashes): index entries of rolled-back headers survive", c.ats(elemStores)...)
-		// generic aliasing check over the module
-		var bad []string
-		for _, f := range c.P.Funcs {
-			ir.Instrs(f, func(in ssa.Instruction) {
-				st, ok := in.(*ssa.Store)
-				if !ok {
-					return
+		if len(effects) == 0 {
+			for _, in := range find(fn, callTo(del)) {
+				recv, _ := recvAndArgs(in)
+				if ir.DerivesFrom(recv, valIsCallTo(nested)) {
+					effects = append(effects, in)
 				}
-				if _, isIdx := st.Addr.(*ssa.IndexAddr); !isIdx {
-					return
-				}
-				al, isAl := st.Val.(*ssa.Alloc)
-				if !isAl || !al.Heap {
-					return
-				}
-				h := ir.LoopHeaderOf(in.Block())
-				if h == nil {
-					return
-				}
-				if !h.Dominates(al.Block()) || al.Block() == h && false {
-					bad = append(bad, c.nm(f)+" at "+c.at(in))
-				}
-			})
+			}
 		}
-		sort.Strings(bad)
-		c.verdict(len(bad) == 0, "module | no slice element inside a loop is set to the address of a variable declared outside that loop", "", "no such aliasing", "address of a loop-invariant variable stored into slice elements inside a loop (every element aliases the same variable): "+join(bad), "all module functions")
+		c.guarded(fn, g, 1, "route the hash to its sub-bucket", effects, 1, gDominate)
 	})
 
 	c.rule("C07.V1", "appendRaw: the size used to cut a partial write off is the end-of-file offset before the write (the file is opened O_APPEND, so the current offset is not the end of file after open or after a truncate): Seek(0, io.SeekEnd) or Stat().Size()", func() {
@@ -662,4 +699,69 @@ func (c *Ctx) indexAtomic() {
 		}
 		c.verdict(okBoth, spec.name+" | entries and tip pointer change in the same transaction", c.P.Pos(fn.Pos()), "entry mutation and tip Put inside the transaction closure", "the transaction no longer contains both the entry mutation and the tip update")
 	}
+}
+
+const rolledBackEntriesRemovedDoc = "RollbackBlockHeaders removes the index entry of every rolled-back header: the slice handed to truncateIndices holds one distinct hash per removed header (a fresh cell per iteration, filled with that header's BlockHash()), and no module function stores the address of one loop-invariant variable into the elements of a slice inside a loop"
+
+// rolledBackEntriesRemoved: see rolledBackEntriesRemovedDoc (C07.V2, also C02.V6).
+func (c *Ctx) rolledBackEntriesRemoved() {
+		fn := c.fn(fnBRoll)
+		ti := find(fn, callTo(c.hfs("headerIndex", "truncateIndices")))
+		bh := c.method(pWire, "BlockHeader", "BlockHash")
+		okv := len(ti) == 1
+		var elemStores []ssa.Instruction
+		ir.Instrs(fn, func(in ssa.Instruction) {
+			st, ok := in.(*ssa.Store)
+			if !ok {
+				return
+			}
+			if _, isIdx := st.Addr.(*ssa.IndexAddr); !isIdx {
+				return
+			}
+			if al, isAl := st.Val.(*ssa.Alloc); isAl {
+				elemStores = append(elemStores, in)
+				h := ir.LoopHeaderOf(in.Block())
+				// fresh per iteration: allocated inside the same loop
+				if h == nil || ir.LoopHeaderOf(al.Block()) != h {
+					okv = false
+				}
+				// filled with the BlockHash of a header
+				filled := false
+				for _, s2 := range ir.StoresTo(al) {
+					if valIsCallTo(bh)(s2.Val) {
+						filled = true
+					}
+				}
+				if !filled {
+					okv = false
+				}
+			}
+		})
+		c.verdict(okv && len(elemStores) == 1, c.nm(fn)+" | one fresh hash cell per removed header", c.P.Pos(fn.Pos()), "per-iteration cell holding header.BlockHash()", "the hashes handed to truncateIndices are not one distinct cell per removed header (all elements alias one variable, or are not the headers' hashes): index entries of rolled-back headers survive", c.ats(elemStores)...)
+		// generic aliasing check over the module
+		var bad []string
+		for _, f := range c.P.Funcs {
+			ir.Instrs(f, func(in ssa.Instruction) {
+				st, ok := in.(*ssa.Store)
+				if !ok {
+					return
+				}
+				if _, isIdx := st.Addr.(*ssa.IndexAddr); !isIdx {
+					return
+				}
+				al, isAl := st.Val.(*ssa.Alloc)
+				if !isAl || !al.Heap {
+					return
+				}
+				h := ir.LoopHeaderOf(in.Block())
+				if h == nil {
+					return
+				}
+				if !h.Dominates(al.Block()) || al.Block() == h && false {
+					bad = append(bad, c.nm(f)+" at "+c.at(in))
+				}
+			})
+		}
+		sort.Strings(bad)
+		c.verdict(len(bad) == 0, "module | no slice element inside a loop is set to the address of a variable declared outside that loop", "", "no such aliasing", "address of a loop-invariant variable stored into slice elements inside a loop (every element aliases the same variable): "+join(bad), "all module functions")
 }
